@@ -3,7 +3,7 @@
    is linked both ways with at least one earlier vertex, so every vertex is reachable from every other along level 0.
    Together with Hnsw/Cover.v (a beam as wide as the index is a complete traversal) this gives the exactness clause
    of C07 for every insert-only history within the bound: [C07_exact_statement] is proved at the end. *)
-From Verif Require Import Base.Prelude Store.Spec Store.Partition Store.Proofs Hnsw.Model Hnsw.Frame Hnsw.Inv Hnsw.Search Hnsw.Exact Hnsw.Cover.
+From Verif Require Import Base.Prelude Store.Spec Store.Partition Store.Proofs Store.Simple Hnsw.Model Hnsw.Frame Hnsw.Inv Hnsw.Search Hnsw.Exact Hnsw.Cover.
 From Coq Require Import Sorted ZifyN ZifyBool ZifyNat.
 Local Open Scope nat_scope.
 
@@ -149,5 +149,415 @@ Section Small.
     intros Pe. induction cnt as [|k IH]; intros ep minD from H; cbn [greedy_down]; auto.
     pose proof (greedy_P P s q from Pe (S (length (arena s))) ep minD H) as G.
     destruct (greedy dist ord (S (length (arena s))) s q ep minD from) as [ep' d']. simpl in G. apply IH; auto.
+  Qed.
+
+  (* ---- one insertion, seen from the state s1 in which the new vertex n has just been stored ---- *)
+  (* every link points into the arena; no link of a level below j points to the new vertex yet *)
+  Definition Q (L1 n j l' tgt : nat) : Prop := tgt < L1 /\ (l' < j -> tgt <> n).
+  Definition G (s1 : hnsw) (n j : nat) (s' : hnsw) : Prop :=
+    same_data s1 s' /\
+    (forall m l e, In e (edges_at (vget s' m) l) -> Q (length (arena s1)) n j l (fst e)) /\
+    (forall m, length (vedges (vget s' m)) = length (vedges (vget s1 m))).
+
+  Lemma G_weaken s1 n j j' s' : j' <= j -> G s1 n j s' -> G s1 n j' s'.
+  Proof.
+    intros Hj (D & E & V). split; [auto|split; [|auto]]. intros m l e He. destruct (E m l e He) as (A & B).
+    split; auto. intros H. apply B. lia.
+  Qed.
+  Lemma G_set_edges s1 n j s' a l es : G s1 n j s' -> (forall e, In e es -> Q (length (arena s1)) n j l (fst e)) -> G s1 n j (set_edges s' a l es).
+  Proof.
+    intros (D & E & V) H. split; [eapply same_data_trans; [exact D|apply set_edges_data]|split].
+    - intros m l' e. rewrite edges_set_edges.
+      match goal with |- context [if ?b then _ else _] => destruct b eqn:C end; [|apply E].
+      apply andb_true_iff in C. destruct C as (_ & C2). apply andb_true_iff in C2. destruct C2 as (C2 & _).
+      apply Nat.eqb_eq in C2. subst l'. apply H.
+    - intros m. rewrite vedges_len_set_edges. apply V.
+  Qed.
+  Lemma G_add_edge s1 n j s' a l t d : G s1 n j s' -> Q (length (arena s1)) n j l t -> G s1 n j (add_edge s' a l t d).
+  Proof.
+    intros Gs Ht. unfold add_edge. apply G_set_edges; auto. intros e He. apply in_put_edge in He.
+    destruct He as [->|He]; [exact Ht|]. destruct Gs as (_ & E & _). eapply E; eauto.
+  Qed.
+  Lemma G_prune s1 n j s' t k l : G s1 n j s' -> G s1 n j (prune dist ord c s' t k l).
+  Proof.
+    intros (D & E & V). split; [eapply same_data_trans; [exact D|apply prune_data]|split].
+    - intros m l' e He. apply prune_sub in He. eapply E; eauto.
+    - intros m. unfold prune. rewrite vedges_len_set_edges. apply V.
+  Qed.
+
+  Lemma link_one_eq lev n s ep x : fst (link_one dist ord c lev n (s, ep) x) =
+    if (mmax_at c lev <? length (edges_at (vget (add_edge (add_edge s n lev (snd x) (fst x)) (snd x) lev n (fst x)) (snd x)) lev))
+    then prune dist ord c (add_edge (add_edge s n lev (snd x) (fst x)) (snd x) lev n (fst x)) (snd x) (mmax_at c lev) lev
+    else add_edge (add_edge s n lev (snd x) (fst x)) (snd x) lev n (fst x).
+  Proof. unfold link_one. cbv zeta. destruct (_ <? _); reflexivity. Qed.
+  Lemma link_one_snd lev n acc x : snd (link_one dist ord c lev n acc x) = snd x.
+  Proof. destruct acc as [s ep]. unfold link_one. cbv zeta. reflexivity. Qed.
+
+  Lemma link_one_G s1 n j lev acc x : j <= lev -> n < length (arena s1) -> snd x < length (arena s1) ->
+    G s1 n j (fst acc) -> G s1 n j (fst (link_one dist ord c lev n acc x)).
+  Proof.
+    intros Hj Hn Ht Gs. destruct acc as [s ep]. cbn [fst] in Gs. rewrite link_one_eq.
+    assert (Qt : Q (length (arena s1)) n j lev (snd x)) by (split; [auto|lia]).
+    assert (Qn : Q (length (arena s1)) n j lev n) by (split; [auto|lia]).
+    destruct (_ <? _); [apply G_prune|]; apply G_add_edge; auto; apply G_add_edge; auto.
+  Qed.
+  Lemma link_fold_G s1 n j lev items : j <= lev -> n < length (arena s1) -> (forall x, In x items -> snd x < length (arena s1)) ->
+    forall acc, G s1 n j (fst acc) -> G s1 n j (fst (fold_left (link_one dist ord c lev n) items acc)).
+  Proof.
+    intros Hj Hn. induction items as [|a items IH]; intros Hi acc Gs; cbn [fold_left]; auto.
+    apply IH; [intros; apply Hi; right; auto|]. apply link_one_G; auto. apply Hi. left. auto.
+  Qed.
+  Lemma link_fold_snd lev n items : forall acc,
+    snd (fold_left (link_one dist ord c lev n) items acc) = snd acc \/ In (snd (fold_left (link_one dist ord c lev n) items acc)) (map snd items).
+  Proof.
+    induction items as [|a items IH]; intros acc; cbn [fold_left]; auto.
+    destruct (IH (link_one dist ord c lev n acc a)) as [E|E].
+    - right. rewrite E, link_one_snd. left. reflexivity.
+    - right. right. exact E.
+  Qed.
+
+  Lemma edges_set_edges_other s a l es m l' : l <> l' -> edges_at (vget (set_edges s a l es) m) l' = edges_at (vget s m) l'.
+  Proof. intros H. rewrite edges_set_edges. rewrite (proj2 (Nat.eqb_neq l l') H). cbn [andb]. rewrite andb_false_r. reflexivity. Qed.
+  Lemma link_one_lev0 lev n acc x m : lev <> 0 -> edges_at (vget (fst (link_one dist ord c lev n acc x)) m) 0 = edges_at (vget (fst acc) m) 0.
+  Proof.
+    intros Hl. destruct acc as [s ep]. rewrite link_one_eq. cbn [fst].
+    destruct (_ <? _); unfold prune, add_edge; rewrite !edges_set_edges_other by auto; reflexivity.
+  Qed.
+  Lemma link_fold_lev0 lev n items m : lev <> 0 -> forall acc,
+    edges_at (vget (fst (fold_left (link_one dist ord c lev n) items acc)) m) 0 = edges_at (vget (fst acc) m) 0.
+  Proof.
+    intros Hl. induction items as [|a items IH]; intros acc; cbn [fold_left]; auto. rewrite IH. apply link_one_lev0; auto.
+  Qed.
+
+  Lemma nbrs_add_edge s a l t d l' m : a < length (arena s) -> l < length (vedges (vget s a)) ->
+    nbrs (add_edge s a l t d) l' m = if (Nat.eqb a m && Nat.eqb l l')%bool then map fst (put_edge t d (edges_at (vget s a) l)) else nbrs s l' m.
+  Proof.
+    intros Ha Hl. unfold nbrs, add_edge. rewrite edges_set_edges.
+    rewrite (proj2 (Nat.ltb_lt _ _) Ha), (proj2 (Nat.ltb_lt _ _) Hl), !andb_true_r. destruct (Nat.eqb a m && Nat.eqb l l')%bool; reflexivity.
+  Qed.
+
+  (* what the insertion starts from *)
+  Definition S1ok (s1 : hnsw) (n : nat) : Prop :=
+    n < length (arena s1) /\ (forall m, m < length (arena s1) -> 0 < length (vedges (vget s1 m))) /\
+    (forall m, NoDup (nbrs s1 0 m)) /\ (forall m, ~ In m (nbrs s1 0 m)) /\
+    length (arena s1) <= S (c_mmax0 c) /\ 1 <= c_m c.
+  Definition H0 (s1 : hnsw) (n : nat) (s' : hnsw) : Prop :=
+    G s1 n 0 s' /\ (forall m, NoDup (nbrs s' 0 m)) /\ (forall m, ~ In m (nbrs s' 0 m)).
+
+  (* linking the new vertex with t on level 0: both links are added, nothing is pruned, nothing else changes *)
+  Lemma link0_step s1 n s' ep x : S1ok s1 n -> H0 s1 n s' -> live s1 (snd x) = true -> snd x <> n ->
+    H0 s1 n (fst (link_one dist ord c 0 n (s', ep) x)) /\
+    (forall m t, In t (nbrs s' 0 m) -> In t (nbrs (fst (link_one dist ord c 0 n (s', ep) x)) 0 m)) /\
+    In (snd x) (nbrs (fst (link_one dist ord c 0 n (s', ep) x)) 0 n) /\ In n (nbrs (fst (link_one dist ord c 0 n (s', ep) x)) 0 (snd x)).
+  Proof.
+    intros (Hn & LV0 & _ & _ & BND & _) (Gs & ND & NS) Lt Tn. rewrite link_one_eq.
+    set (t := snd x) in *. set (d := fst x) in *.
+    set (sa := add_edge s' n 0 t d). set (sb := add_edge sa t 0 n d).
+    assert (tL : t < length (arena s1)) by (apply live_lt; auto).
+    assert (Ga : G s1 n 0 sa) by (apply G_add_edge; auto; split; [auto|lia]).
+    assert (Gb : G s1 n 0 sb) by (apply G_add_edge; auto; split; [auto|lia]).
+    assert (L' : length (arena s') = length (arena s1)) by (symmetry; apply same_data_length; apply Gs).
+    assert (La : length (arena sa) = length (arena s1)) by (symmetry; apply same_data_length; apply Ga).
+    assert (V' : 0 < length (vedges (vget s' n))) by (destruct Gs as (_ & _ & V); rewrite V; apply LV0; auto).
+    assert (Va : 0 < length (vedges (vget sa t))) by (destruct Ga as (_ & _ & V); rewrite V; apply LV0; auto).
+    assert (NA : forall m, nbrs sa 0 m = if Nat.eqb n m then map fst (put_edge t d (edges_at (vget s' n) 0)) else nbrs s' 0 m).
+    { intros m. unfold sa. rewrite nbrs_add_edge by lia. cbn [Nat.eqb]. rewrite andb_true_r. reflexivity. }
+    assert (NB : forall m, nbrs sb 0 m = if Nat.eqb t m then map fst (put_edge n d (edges_at (vget sa t) 0)) else nbrs sa 0 m).
+    { intros m. unfold sb. rewrite nbrs_add_edge by lia. cbn [Nat.eqb]. rewrite andb_true_r. reflexivity. }
+    assert (NAt : map fst (edges_at (vget sa t) 0) = nbrs s' 0 t).
+    { change (map fst (edges_at (vget sa t) 0)) with (nbrs sa 0 t). rewrite NA. rewrite (proj2 (Nat.eqb_neq n t)) by auto. reflexivity. }
+    assert (MEM : forall m y, In y (nbrs sb 0 m) <-> (m = t /\ y = n) \/ (m = n /\ y = t) \/ In y (nbrs s' 0 m)).
+    { intros m y. rewrite NB. destruct (Nat.eqb_spec t m) as [<-|Htm].
+      - rewrite in_put_edge_fst, NAt. intuition congruence.
+      - rewrite NA. destruct (Nat.eqb_spec n m) as [<-|Hnm].
+        + rewrite in_put_edge_fst. unfold nbrs. intuition congruence.
+        + intuition congruence. }
+    assert (NDb : forall m, NoDup (nbrs sb 0 m)).
+    { intros m. rewrite NB. destruct (Nat.eqb_spec t m) as [<-|Htm].
+      - apply put_edge_nodup. rewrite NAt. apply ND.
+      - rewrite NA. destruct (Nat.eqb_spec n m) as [<-|Hnm]; [apply put_edge_nodup; apply ND|apply ND]. }
+    assert (NSb : forall m, ~ In m (nbrs sb 0 m)).
+    { intros m H. apply MEM in H. destruct H as [(-> & E)|[(-> & E)|H]]; [congruence|congruence|]. apply (NS m H). }
+    assert (DEG : length (edges_at (vget sb t) 0) <= c_mmax0 c).
+    { assert (EL : length (edges_at (vget sb t) 0) = length (nbrs sb 0 t)) by (unfold nbrs; rewrite map_length; reflexivity). rewrite EL.
+      assert (B : S (length (nbrs sb 0 t)) <= length (arena s1)).
+      { apply (nodup_bound (t :: nbrs sb 0 t)); [constructor; auto|].
+        intros y [<-|Hy]; auto. unfold nbrs in Hy. apply in_map_iff in Hy. destruct Hy as (e & <- & He).
+        destruct Gb as (_ & E & _). apply (E t 0 e He). }
+      lia. }
+    assert (NOPRUNE : (mmax_at c 0 <? length (edges_at (vget sb t) 0)) = false) by (apply Nat.ltb_ge; unfold mmax_at; lia).
+    fold sa. fold sb. rewrite NOPRUNE.
+    split; [split; [auto|split; auto]|]. split; [|split].
+    - intros m y H. apply MEM. auto.
+    - apply MEM. auto.
+    - apply MEM. auto.
+  Qed.
+
+  Lemma link0_fold s1 n items : S1ok s1 n -> (forall x, In x items -> live s1 (snd x) = true /\ snd x <> n) ->
+    forall acc, H0 s1 n (fst acc) ->
+      H0 s1 n (fst (fold_left (link_one dist ord c 0 n) items acc)) /\
+      (forall m t, In t (nbrs (fst acc) 0 m) -> In t (nbrs (fst (fold_left (link_one dist ord c 0 n) items acc)) 0 m)) /\
+      (forall x, In x items -> In (snd x) (nbrs (fst (fold_left (link_one dist ord c 0 n) items acc)) 0 n) /\
+                               In n (nbrs (fst (fold_left (link_one dist ord c 0 n) items acc)) 0 (snd x))).
+  Proof.
+    intros OK. induction items as [|a items IH]; intros Hi acc HH; cbn [fold_left].
+    - split; [auto|split; [auto|intros x []]].
+    - destruct acc as [s' ep]. cbn [fst] in HH.
+      destruct (Hi a (or_introl eq_refl)) as (La & Na).
+      destruct (link0_step s1 n s' ep a OK HH La Na) as (H1 & M1 & A1 & B1).
+      destruct (IH (fun x Hx => Hi x (or_intror Hx)) _ H1) as (H2 & M2 & L2).
+      split; [auto|split].
+      + intros m t Ht. apply M2. apply M1. auto.
+      + intros x [<-|Hx]; [split; apply M2; auto|apply L2; auto].
+  Qed.
+
+  Lemma insert_levels_S s n ep level k : insert_levels dist ord c s n ep level (S k) =
+    insert_levels dist ord c
+      (fst (fold_left (link_one dist ord c level n) (rev (select dist ord c s (vvec (vget s n)) (search_level dist ord s (vvec (vget s n)) ep (c_efc c) level) (c_m c) level)) (s, ep))) n
+      (snd (fold_left (link_one dist ord c level n) (rev (select dist ord c s (vvec (vget s n)) (search_level dist ord s (vvec (vget s n)) ep (c_efc c) level) (c_m c) level)) (s, ep)))
+      (level - 1) k.
+  Proof.
+    cbn [insert_levels]. match goal with |- context [fold_left ?f ?l ?a] => destruct (fold_left f l a) end. reflexivity.
+  Qed.
+
+  (* the neighbours selected on a level: at least one, all live, none of them the new vertex itself *)
+  Lemma sel_props s1 n lev s' ep : S1ok s1 n -> G s1 n (S lev) s' -> live s1 ep = true -> ep <> n ->
+    select dist ord c s' (vvec (vget s' n)) (search_level dist ord s' (vvec (vget s' n)) ep (c_efc c) lev) (c_m c) lev <> [] /\
+    forall x, In x (select dist ord c s' (vvec (vget s' n)) (search_level dist ord s' (vvec (vget s' n)) ep (c_efc c) lev) (c_m c) lev) ->
+      live s1 (snd x) = true /\ snd x <> n.
+  Proof.
+    intros OK Gs Lep Nep. pose proof Gs as (D & E & _).
+    assert (Lep' : live s' ep = true) by (rewrite <- (live_data s1 s' ep D); auto).
+    destruct (search_level_good dist ord s' (vvec (vget s' n)) ep (c_efc c) lev Lep') as ((A & _ & _) & NE).
+    split.
+    - apply select_nonempty; auto. destruct OK as (_ & _ & _ & _ & _ & M). lia.
+    - intros x Hx. apply select_sub in Hx. split.
+      + eapply Forall_forall in A; eauto. destruct A as (_ & A2). rewrite (live_data s1 s' _ D). auto.
+      + apply (search_level_closed (fun v => v <> n) s' (vvec (vget s' n)) ep (c_efc c) lev Nep); auto.
+        intros m e He. apply (E m lev e He). lia.
+  Qed.
+
+  Definition post (s1 : hnsw) (n : nat) (s2 : hnsw) : Prop :=
+    H0 s1 n s2 /\ (forall m t, In t (nbrs s1 0 m) -> In t (nbrs s2 0 m)) /\
+    exists t0, t0 <> n /\ live s1 t0 = true /\ In t0 (nbrs s2 0 n) /\ In n (nbrs s2 0 t0).
+
+  Lemma insert_levels_post s1 n : S1ok s1 n -> forall k s' ep, G s1 n (S k) s' -> (forall m, nbrs s' 0 m = nbrs s1 0 m) ->
+    live s1 ep = true -> ep <> n -> post s1 n (insert_levels dist ord c s' n ep k (S k)).
+  Proof.
+    intros OK. induction k as [|j IH]; intros s' ep Gs SAME Lep Nep; rewrite insert_levels_S;
+      destruct (sel_props s1 n _ s' ep OK Gs Lep Nep) as (NE & SP);
+      match goal with |- context [rev ?l] => set (sel := l) in * end.
+    - cbn [insert_levels].
+      assert (HS : H0 s1 n (fst (s', ep))).
+      { cbn [fst]. split; [apply (G_weaken s1 n 1 0); auto|]. destruct OK as (_ & _ & ND & NS & _).
+        split; intros m; rewrite SAME; auto. }
+      assert (SPr : forall x, In x (rev sel) -> live s1 (snd x) = true /\ snd x <> n) by (intros x Hx; apply SP; apply in_rev; auto).
+      destruct (link0_fold s1 n (rev sel) OK SPr (s', ep) HS) as (HH & MONO & LINK).
+      split; [exact HH|split].
+      + intros m t Ht. apply MONO. cbn [fst]. rewrite SAME. auto.
+      + destruct sel as [|x0 r]; [congruence|].
+        assert (Hx0 : In x0 (rev (x0 :: r))) by (apply in_rev; rewrite rev_involutive; left; auto).
+        destruct (SPr x0 Hx0) as (L0 & N0). destruct (LINK x0 Hx0) as (A & B). exists (snd x0). auto.
+    - replace (S j - 1) with j by lia.
+      assert (SPr : forall x, In x (rev sel) -> live s1 (snd x) = true /\ snd x <> n) by (intros x Hx; apply SP; apply in_rev; auto).
+      destruct OK as (Hn & OK').
+      apply IH.
+      + apply link_fold_G; auto.
+        * intros x Hx. apply live_lt. apply SPr; auto.
+        * cbn [fst]. apply (G_weaken s1 n (S (S j)) (S j)); auto.
+      + intros m. unfold nbrs. rewrite link_fold_lev0 by discriminate. cbn [fst]. exact (SAME m).
+      + destruct (link_fold_snd (S j) n (rev sel) (s', ep)) as [E|E]; [rewrite E; auto|].
+        apply in_map_iff in E. destruct E as (x & <- & Hx). apply SPr; auto.
+      + destruct (link_fold_snd (S j) n (rev sel) (s', ep)) as [E|E]; [rewrite E; auto|].
+        apply in_map_iff in E. destruct E as (x & <- & Hx). apply SPr; auto.
+  Qed.
+
+  (* ---- the invariant of insert-only histories ---- *)
+  Record K (s : hnsw) : Prop := {
+    k_live : forall m, m < length (arena s) -> live s m = true;
+    k_tgt : forall m l e, In e (edges_at (vget s m) l) -> fst e < length (arena s);
+    k_nodup : forall m, NoDup (nbrs s 0 m);
+    k_noself : forall m, ~ In m (nbrs s 0 m);
+    k_lev0 : forall m, m < length (arena s) -> 0 < length (vedges (vget s m));
+    k_conn : forall a b, a < length (arena s) -> b < length (arena s) -> reach s 0 a b;
+    k_count : length (idmap s) = length (arena s)
+  }.
+
+  Lemma nbrs_oob s l m : length (arena s) <= m -> nbrs s l m = [].
+  Proof. intros H. unfold nbrs. rewrite (vget_oob s m H), edges_dv. reflexivity. Qed.
+  Lemma K_empty : K hnsw_empty.
+  Proof.
+    constructor; simpl; try (intros; lia); auto.
+    - intros m l e. rewrite vget_oob by (simpl; lia). rewrite edges_dv. intros [].
+    - intros m. rewrite nbrs_oob by (simpl; lia). constructor.
+    - intros m. rewrite nbrs_oob by (simpl; lia). intros [].
+  Qed.
+
+  Lemma reach_mono s s' a b : (forall m t, In t (nbrs s 0 m) -> In t (nbrs s' 0 m)) -> (forall t, live s t = true -> live s' t = true) ->
+    reach s 0 a b -> reach s' 0 a b.
+  Proof. intros M L R. induction R; [constructor|]. eapply reach_step; eauto. Qed.
+
+  Lemma K_set_entry s e : K s -> K (set_entry s e).
+  Proof.
+    intros [A B C D E F G0]. constructor; auto. intros a b Ha Hb. apply (reach_mono s (set_entry s e)); auto.
+  Qed.
+
+  Lemma K_of_post s s1 n s2 id : K s -> S1ok s1 n -> n = length (arena s) -> length (arena s1) = S n ->
+    (forall k, k < n -> vget s1 k = vget s k) -> live s1 n = true -> idmap s1 = (id, n) :: idmap s -> post s1 n s2 -> K s2.
+  Proof.
+    intros KS (_ & LV0 & _) Hn L1 GK LVn HM (((D & E & V) & ND & NS) & MONO & t0 & T0n & T0l & T0a & T0b).
+    assert (L2 : length (arena s2) = S n) by (rewrite <- (same_data_length s1 s2 D); auto).
+    assert (LIVE1 : forall t, t < n -> live s1 t = true) by (intros t Ht; unfold live; rewrite GK by auto; apply (k_live s KS); lia).
+    assert (LIVE2 : forall t, t < S n -> live s2 t = true).
+    { intros t Ht. rewrite <- (live_data s1 s2 t D). destruct (Nat.eq_dec t n) as [->|]; auto. apply LIVE1. lia. }
+    assert (MS : forall m t, In t (nbrs s 0 m) -> In t (nbrs s2 0 m)).
+    { intros m t Ht. destruct (Nat.lt_ge_cases m n) as [Hm|Hm].
+      - apply MONO. unfold nbrs. rewrite GK by auto. exact Ht.
+      - rewrite nbrs_oob in Ht by lia. destruct Ht. }
+    assert (LS : forall t, live s t = true -> live s2 t = true) by (intros t Ht; apply LIVE2; apply live_lt in Ht; lia).
+    assert (T0 : t0 < n) by (apply live_lt in T0l; lia).
+    assert (OLD : forall a b, a < n -> b < n -> reach s2 0 a b) by (intros a b Ha Hb; apply (reach_mono s s2); auto; apply (k_conn s KS); lia).
+    assert (TON : forall x, x < n -> reach s2 0 x n).
+    { intros x Hx. eapply reach_step; [apply (OLD x t0); auto|exact T0b|apply LIVE2; lia]. }
+    assert (FROMN : forall x, x < n -> reach s2 0 n x).
+    { intros x Hx. eapply reach_trans; [|apply (OLD t0 x); auto]. eapply reach_step; [apply reach_refl|exact T0a|apply LIVE2; lia]. }
+    constructor.
+    - intros m Hm. apply LIVE2. lia.
+    - intros m l e He. rewrite L2, <- L1. apply (E m l e He).
+    - exact ND.
+    - exact NS.
+    - intros m Hm. rewrite V. apply LV0. lia.
+    - intros a b Ha Hb. rewrite L2 in Ha, Hb.
+      destruct (Nat.eq_dec a n) as [->|Na]; destruct (Nat.eq_dec b n) as [->|Nb].
+      + apply reach_refl.
+      + apply FROMN. lia.
+      + apply TON. lia.
+      + apply OLD; lia.
+    - rewrite L2. destruct D as (_ & <- & _). rewrite HM. simpl. rewrite (k_count s KS). lia.
+  Qed.
+
+  Lemma store_facts s id v m lvl s1 n : Inv s -> K s -> store_vertex s id v m lvl = Some (s1, n) ->
+    n = length (arena s) /\ length (arena s1) = S n /\ (forall k, k < n -> vget s1 k = vget s k) /\ live s1 n = true /\
+    (forall l, edges_at (vget s1 n) l = []) /\ 0 < length (vedges (vget s1 n)) /\ idmap s1 = (id, n) :: idmap s /\ entry s1 = entry s /\
+    (forall j, G s1 n j s1) /\ (length (arena s) <= c_mmax0 c -> 1 <= c_m c -> S1ok s1 n).
+  Proof.
+    intros I KS ES. destruct (store_vertex_spec dist s id v m lvl s1 n I ES) as (Hn & _ & HA & HM & HE & GK & _ & _).
+    assert (L1 : length (arena s1) = S n) by (rewrite HA, app_length; simpl; lia).
+    assert (VN : vget s1 n = {| vid := id; vvec := v; vmeta := m; vlevel := lvl; vdel := false; vedges := repeat [] (S lvl) |}).
+    { unfold vget. rewrite HA, Hn, app_nth2, Nat.sub_diag by lia. reflexivity. }
+    assert (EN : forall l, edges_at (vget s1 n) l = []) by (intros l; rewrite VN; unfold edges_at; cbn [vedges]; apply nth_repeat_nil).
+    assert (GK' : forall k, k < n -> vget s1 k = vget s k) by (intros k Hk; apply GK; lia).
+    assert (VL : 0 < length (vedges (vget s1 n))) by (rewrite VN; cbn [vedges]; rewrite repeat_length; lia).
+    assert (N1 : forall m, nbrs s1 0 m = nbrs s 0 m).
+    { intros m0. destruct (Nat.lt_ge_cases m0 n) as [Hm|Hm]; [unfold nbrs; rewrite GK' by auto; reflexivity|].
+      rewrite (nbrs_oob s 0 m0) by lia. destruct (Nat.eq_dec m0 n) as [->|]; [unfold nbrs; rewrite EN; reflexivity|apply nbrs_oob; lia]. }
+    split; [auto|split; [auto|split; [auto|split; [unfold live; rewrite VN; reflexivity|split; [auto|split; [auto|split; [auto|split; [auto|split]]]]]]]].
+    - intros j. split; [apply same_data_refl|split; [|auto]]. intros m0 l e He.
+      destruct (Nat.lt_ge_cases m0 n) as [Hm|Hm].
+      + rewrite GK' in He by auto. pose proof (k_tgt s KS m0 l e He) as B. unfold Q. lia.
+      + destruct (Nat.eq_dec m0 n) as [->|]; [rewrite EN in He; destruct He|]. rewrite vget_oob, edges_dv in He by lia. destruct He.
+    - intros BND M. split; [lia|split; [|split; [|split; [|split; [lia|auto]]]]].
+      + intros m0 Hm. destruct (Nat.eq_dec m0 n) as [->|]; auto. rewrite GK' by lia. apply (k_lev0 s KS). lia.
+      + intros m0. rewrite N1. apply (k_nodup s KS).
+      + intros m0. rewrite N1. apply (k_noself s KS).
+  Qed.
+
+  Lemma insert_K s id v m lvl : Inv s -> K s -> lookup_id s id = None -> 1 <= c_m c -> length (arena s) <= c_mmax0 c ->
+    K (fst (insert dist ord c s id v m lvl)).
+  Proof.
+    intros I KS LN M BND. unfold insert. destruct (entry s) as [e0|] eqn:EE.
+    - destruct (store_vertex s id v m lvl) as [[s1 n]|] eqn:ES.
+      2:{ unfold store_vertex in ES. rewrite LN in ES. discriminate. }
+      destruct (store_facts s id v m lvl s1 n I KS ES) as (Hn & L1 & GK & LVn & EN & VL & HM & HE & G0 & OK). specialize (OK BND M).
+      pose proof (inv_entry _ I) as IE. rewrite EE in IE. destruct IE as (ide & Hide).
+      destruct (inv_map _ I _ _ Hide) as (He0 & _ & _).
+      assert (Le0 : live s1 e0 = true) by (unfold live; rewrite GK by lia; apply (k_live s KS); auto).
+      assert (NOTN : forall m0 l e, In e (edges_at (vget s1 m0) l) -> fst e <> n).
+      { intros m0 l e He. destruct (G0 (S l)) as (_ & E & _). apply (E m0 l e He). lia. }
+      pose proof (greedy_down_live dist ord (vlevel (vget s1 e0) - lvl) s1 v e0 (vdist dist s1 v e0) (vlevel (vget s1 e0)) Le0) as Lep.
+      assert (Nep : fst (greedy_down dist ord s1 v e0 (vdist dist s1 v e0) (vlevel (vget s1 e0)) (vlevel (vget s1 e0) - lvl)) <> n).
+      { apply (greedy_down_P (fun x => x <> n) s1 v NOTN). lia. }
+      destruct (greedy_down dist ord s1 v e0 (vdist dist s1 v e0) (vlevel (vget s1 e0)) (vlevel (vget s1 e0) - lvl)) as [ep d0].
+      cbn [fst] in Lep, Nep.
+      set (top := Nat.min (vlevel (vget s1 ep)) lvl).
+      pose proof (insert_levels_post s1 n OK top s1 ep (G0 (S top)) (fun _ => eq_refl) Lep Nep) as P.
+      pose proof (K_of_post s s1 n _ id KS OK Hn L1 GK LVn HM P) as K2.
+      cbv zeta. destruct (entry (insert_levels dist ord c s1 n ep top (S top))) as [e1|]; [destruct (_ <? _)|]; cbn [fst]; auto.
+      apply K_set_entry; auto.
+    - destruct (store_vertex s id v m 0) as [[s1 n]|] eqn:ES.
+      2:{ unfold store_vertex in ES. rewrite LN in ES. discriminate. }
+      destruct (store_facts s id v m 0 s1 n I KS ES) as (Hn & L1 & GK & LVn & EN & VL & HM & HE & G0 & OK). specialize (OK BND M).
+      pose proof (inv_entry _ I) as IE. rewrite EE in IE.
+      assert (Z0 : n = 0) by (rewrite Hn, <- (k_count s KS), IE; reflexivity).
+      cbn [fst]. apply K_set_entry. assert (A0 : length (arena s) = 0) by lia. clear Hn. subst n.
+      assert (NB : forall m0, nbrs s1 0 m0 = []).
+      { intros m0. destruct m0; [unfold nbrs; rewrite EN; reflexivity|apply nbrs_oob; lia]. }
+      constructor.
+      + intros m0 Hm. assert (m0 = 0) by lia. subst. auto.
+      + intros m0 l e He. destruct m0; [rewrite EN in He; destruct He|]. rewrite vget_oob, edges_dv in He by lia. destruct He.
+      + intros m0. rewrite NB. constructor.
+      + intros m0. rewrite NB. intros [].
+      + intros m0 Hm. assert (m0 = 0) by lia. subst. auto.
+      + intros a b Ha Hb. assert (a = 0) by lia. assert (b = 0) by lia. subst. apply reach_refl.
+      + rewrite HM, L1. simpl. rewrite IE. reflexivity.
+  Qed.
+
+  (* ---- every insert-only history within the bound ---- *)
+  Definition idof (o : N * vec * meta * nat) : N := let '(id, _, _, _) := o in id.
+  Lemma fold_insert_K ops : forall s0, Inv s0 -> K s0 -> NoDup (map idof ops) ->
+    (forall o, In o ops -> ~ In (idof o) (map fst (idmap s0))) ->
+    length (arena s0) + length ops <= S (c_mmax0 c) -> 1 <= c_m c ->
+    Inv (fold_left (fun s '(id, v, m, l) => fst (insert dist ord c s id v m l)) ops s0) /\
+    K (fold_left (fun s '(id, v, m, l) => fst (insert dist ord c s id v m l)) ops s0) /\
+    length (arena (fold_left (fun s '(id, v, m, l) => fst (insert dist ord c s id v m l)) ops s0)) = length (arena s0) + length ops.
+  Proof.
+    induction ops as [|o r IH]; intros s0 I KS ND FR BND M; cbn [fold_left].
+    - split; [auto|split; [auto|simpl; lia]].
+    - destruct o as [[[id v] m] l]. cbn [length] in BND.
+      assert (LN : lookup_id s0 id = None).
+      { unfold lookup_id. apply alookup_none. apply (FR (id, v, m, l)). left. reflexivity. }
+      assert (VN : view (h_ops dist ord c) s0 id = None) by (rewrite view_lookup by auto; rewrite LN; reflexivity).
+      destruct (insert_new dist ord c s0 id v m l I VN) as (s' & E & I' & P).
+      pose proof (insert_K s0 id v m l I KS LN M ltac:(lia)) as K'. rewrite E in K'. cbn [fst] in K'. rewrite E. cbn [fst].
+      assert (LEN : length (arena s') = S (length (arena s0))).
+      { rewrite <- (k_count s' K'), <- (k_count s0 KS). apply Permutation_length in P. unfold h_items in P. cbn [length] in P. rewrite !map_length in P. exact P. }
+      inversion ND as [|x xs NI ND']; subst.
+      destruct (IH s' I' K' ND') as (A & B & C); auto.
+      + intros o Ho Hin. assert (HI : In (idof o) (map fst (h_items s'))).
+        { unfold h_items. rewrite map_map. cbn [fst]. exact Hin. }
+        apply (Permutation_in _ (Permutation_map fst P)) in HI. cbn [map fst] in HI. destruct HI as [HI|HI].
+        * apply NI. cbn [idof] in HI. rewrite HI. apply in_map. auto.
+        * apply (FR o (or_intror Ho)). unfold h_items in HI. rewrite map_map in HI. cbn [fst] in HI. exact HI.
+      + lia.
+      + split; [auto|split; [auto|]]. rewrite C, LEN. simpl. lia.
+  Qed.
+
+  (* the states of insert-only histories within the bound: structural invariant, connected level 0, all items live *)
+  Lemma small_inv ops : NoDup (map (fun '(id, _, _, _) => id) ops) -> length ops <= 2 * c_m c + 1 -> c_mmax0 c = 2 * c_m c -> 1 <= c_m c ->
+    Inv (insert_only dist ord c ops) /\ K (insert_only dist ord c ops) /\ length (arena (insert_only dist ord c ops)) = length ops.
+  Proof.
+    intros ND LEN M0 M1.
+    assert (IDS : map (fun '(id, _, _, _) => id) ops = map idof ops) by (apply map_ext; intros [[[? ?] ?] ?]; reflexivity).
+    rewrite IDS in ND.
+    destruct (fold_insert_K ops hnsw_empty inv_empty K_empty ND) as (I & KS & L); [intros o _ []|simpl; lia|auto|].
+    simpl in L. auto.
+  Qed.
+
+  Theorem C07_exact_holds : C07_exact_statement dist ord c.
+  Proof.
+    intros _ ops q k ND LEN M0 M1 WIDE _ SMALL.
+    destruct (small_inv ops ND LEN M0 M1) as (I & KS & L). set (s := insert_only dist ord c ops) in *.
+    intros n0 Ln. unfold beam. destruct (entry s) as [e0|] eqn:EE.
+    - pose proof (inv_entry _ I) as IE. rewrite EE in IE. destruct IE as (ide & Hide).
+      destruct (inv_map _ I _ _ Hide) as (He0 & _ & Hdel0).
+      assert (L0 : live s e0 = true) by (unfold live; rewrite Hdel0; auto).
+      pose proof (greedy_down_live dist ord (vlevel (vget s e0)) s q e0 (vdist dist s q e0) (vlevel (vget s e0)) L0) as LG.
+      destruct (greedy_down dist ord s q e0 (vdist dist s q e0) (vlevel (vget s e0)) (vlevel (vget s e0))) as [ep d0]. cbn [fst] in LG.
+      apply (search_level_covers dist ord ord_perm s q (beam_width c s k) 0); auto.
+      + unfold beam_width. rewrite (inv_len _ I), (k_count s KS), L.
+        rewrite wrap_small by exact SMALL. rewrite Nat2N.id. lia.
+      + apply (k_conn s KS); apply live_lt; auto.
+    - pose proof (inv_entry _ I) as IE. rewrite EE in IE. apply live_lt in Ln.
+      rewrite <- (k_count s KS), IE in Ln. simpl in Ln. lia.
   Qed.
 End Small.
